@@ -102,7 +102,7 @@ def correspondence(run):
                 continue
             real = {}
             for f in gen_site.output_files(out):
-                if f.endswith(".html"):
+                if f.endswith(".html") and not f.startswith("/assets/"):
                     p = gen_site.parse_page((out / f[1:]).read_text())
                     # links inside a recipe's own tables (references to its sub recipes, '#recipe-...') are C09's subject, not the site model's
                     real[f] = (p.title, sorted(unquote(x[2]) for x in p.links if not x[2].startswith("#recipe")))
@@ -191,7 +191,8 @@ def expected_target(tree, src_name, page_path, kind, t, M):
 def crawl(tree, M, src, out):
     out_v = []
     files = set(gen_site.output_files(out))
-    pages = {f: gen_site.parse_page((out / f[1:]).read_text()) for f in files if f.endswith(".html")}
+    # (a copy of a linked local file under /assets/ is not a page, whatever its name ends in)
+    pages = {f: gen_site.parse_page((out / f[1:]).read_text()) for f in files if f.endswith(".html") and not f.startswith("/assets/")}
     authored = {}
     for rel, dd in gen_site.walk(tree):
         for h in list(dd["recipes"]) + ([dd["readme"]] if dd["readme"] else []):
@@ -239,7 +240,7 @@ def crawl(tree, M, src, out):
     while todo:
         x = todo.pop()
         for y in graph.get(x, ()):
-            if y not in seen and y.endswith(".html"):
+            if y not in seen and y in pages:
                 seen.add(y)
                 todo.append(y)
     unreachable = sorted(set(pages) - seen)
@@ -330,8 +331,35 @@ def fixed_oracle_cases():
     yield dict(name="root", readme=None, recipes=[feast, note, two], subdirs=[], assets=[]), 257
 
 
+def check_regeneration():
+    """after a second generation into the same directory every link to a local file leads to the file's CURRENT bytes"""
+    import re
+    out = []
+    scratch, same, fresh, src = gen_site.regenerate_same_directory()
+    try:
+        for f in gen_site.output_files(fresh):
+            a, b = same / f[1:], fresh / f[1:]
+            if not a.exists():
+                out.append(("C14:dead-link:authored", "%s is missing after regeneration into the same directory" % f))
+            elif a.read_bytes() != b.read_bytes():
+                kind = "page" if f.endswith(".html") else "linked local file"
+                out.append(("C14:link-resolves-to-stale-copy:second-generation-into-the-same-directory", "%s %s differs from a fresh generation of the current sources" % (kind, f)))
+        page = (same / "serves2" / "mains" / "omelette.html").read_text()
+        for url in re.findall(r'(?:href|src)="([^"]*(?:oven\.csv|pic\.bin))"', page):
+            tgt = gen_site.resolve("/serves2/mains/omelette.html", url)
+            cur = (src / "mains" / tgt.rsplit("/", 1)[-1]).read_bytes()
+            if not (same / tgt[1:]).exists() or (same / tgt[1:]).read_bytes() != cur:
+                out.append(("C14:link-resolves-to-stale-copy:second-generation-into-the-same-directory", "link %r leads to bytes that are not the linked file's" % url))
+        return out[:3]
+    finally:
+        shutil.rmtree(scratch, ignore_errors=True)
+
+
 def oracle(run):
     rng = run.rng
+    run.case(("regeneration",), True, kind="regeneration-into-same-directory")
+    for sig, detail in check_regeneration():
+        run.violate(sig, detail, {"regeneration": True})
     fixed = list(fixed_oracle_cases())
     for i in range(run.budget(30, 800) + len(fixed)):
         if i < len(fixed):
@@ -415,7 +443,7 @@ def check_inert(d, M):
             for r in dd["recipes"]:
                 titles.add(plain_title(r["title"]))
         for f in gen_site.output_files(gen_out):
-            if not f.endswith(".html"):
+            if not f.endswith(".html") or f.startswith("/assets/"):
                 continue
             text = (gen_out / f[1:]).read_text()
             root, problems = htmltok.tree(text)
@@ -471,6 +499,11 @@ def replay_inert(r):
 
 def replay(run, obj):
     r = obj["replay"]
+    if r.get("regeneration"):
+        res = check_regeneration()
+        for x in res:
+            print(*x)
+        return bool(res)
     if "sitesources_seed" in r:
         import os
         import subprocess
